@@ -97,6 +97,9 @@ impl TransportVisitor for V {
         };
         let mut cm = VsockConnectionManager::new_with_capacity(sock, CAP);
         #[allow(non_snake_case)]
+        // In the life-cycle alphabet and with peers that differ in their cid only, the device
+        // reports used lengths that include 6 bytes of padding behind every packet.
+        PAD_USED.with(|p| p.set(if self.level == 5 || self.level == 3 { 6 } else { 0 }));
         let PEERS: [VsockAddr; 2] = if self.level == 3 { [PEERS3[0], PEERS3[2]] } else { [PEERS3[0], PEERS3[1]] };
         let mut m = Model { conns: vec![], listening: vec![], peers: vec![] };
         let mut tx_seen = 0usize;
@@ -514,6 +517,7 @@ impl TransportVisitor for V {
             }
         }
         drop(cm);
+        PAD_USED.with(|p| p.set(0));
         cosim::uninstall();
     }
 }
